@@ -33,7 +33,7 @@ def one(seed):
 
 
 def main():
-    seeds = sorted(x for x in os.listdir(os.path.join(VERIF, "seeded")) if os.path.isdir(os.path.join(VERIF, "seeded", x)))
+    seeds = sorted(x for x in os.listdir(os.path.join(VERIF, "seeded")) if os.path.exists(os.path.join(VERIF, "seeded", x, "meta.json")))
     if len(sys.argv) > 1:
         seeds = [s for s in seeds if any(s.startswith(a) for a in sys.argv[1:])]
     with ProcessPoolExecutor(8) as ex:
